@@ -147,6 +147,7 @@ class Interp:
         self.solver = z3.Solver()
         self.solver.set("timeout", 400)
         self.fresh_n = 0
+        self.assumed_foralls = {}
         self.pc_ids = set()
         self.subst = []
         self.inputs = {}        # name -> z3 const (declared harness inputs, for models)
@@ -205,7 +206,9 @@ class Interp:
 
     def assume(self, cond):
         if isinstance(cond, Forall):
-            self.schemas().add(cond.label, cond.types, cond.fn)
+            if id(cond) not in self.assumed_foralls:
+                self.assumed_foralls[id(cond)] = cond
+                self.schemas().add(cond.label, cond.types, cond.fn)
             return
         if cond is True:
             return
@@ -249,6 +252,14 @@ class Interp:
         self._add_pc(c)
         return d
 
+    def path_feasible(self, timeout_ms=3000):
+        """full check of the path condition (including string constraints); only `unsat`
+        prunes"""
+        s = z3.Solver()
+        s.set("timeout", timeout_ms)
+        s.add(*self.pc)
+        return s.check() != z3.unsat
+
     def choose(self, n, label="choice"):
         """n-way nondeterministic choice (e.g. which alternative of a union)."""
         for k in range(n - 1):
@@ -260,6 +271,11 @@ class Interp:
     def oblige(self, name, goal, meta=None, assume_after=True):
         """Emit a proof obligation ``pc |- goal`` and continue under ``goal``."""
         if isinstance(goal, Forall):
+            if id(goal) in self.assumed_foralls:
+                self.ex.ob_names.setdefault(name, 0)
+                self.ex.ob_names[name] += 1
+                self.trivial.append(name)      # literally one of the assumed facts
+                return
             sk = [self.fresh(f"sk@{t}", z3.IntSort()) for t in goal.types]
             for v in sk:
                 self.inputs[str(v)] = v
@@ -577,7 +593,8 @@ class Interp:
                     t = self._bool_term(a) == self._bool_term(b)
                     return SBool(z3.Not(t) if neg else t)
                 return neg
-            if isinstance(a, (PObj, Closure, ClassRef, list, dict)) or isinstance(b, (PObj, Closure, ClassRef, list, dict)):
+            if isinstance(a, (PObj, Closure, ClassRef, list, dict, Model, ExcClass)) or \
+                    isinstance(b, (PObj, Closure, ClassRef, list, dict, Model, ExcClass)):
                 r = a is b
                 return (not r) if neg else r
             raise Undecided(f"'is' on {a!r} {b!r}")
@@ -1022,7 +1039,9 @@ class Interp:
             if pre is not None and self.cur_target != fv.ident:
                 pre(self, args, kwargs)     # call-site obligations of the callee's precondition
             contract = self.ex.contracts.get(fv.ident)
-            if contract is not None and self.cur_target != fv.ident:
+            # the function under verification is executed from its body once; its own
+            # recursive calls (and every other call) go through the contract
+            if contract is not None and not (self.cur_target == fv.ident and self.call_depth == 0):
                 self.ex.used_contracts.add(fv.ident)
                 return contract(self, *args, **kwargs)
             if fv.node is not None and (self.cur_target == fv.ident or fv.ident in self.ex.inline or
